@@ -471,7 +471,8 @@ def rule_R4(ctx):
     # error exits: sig without label (x5) and line outside module
     errs = []
     for i2, j2, s2 in b.iter_stmts():
-        if s2["k"] == "assign" and s2["p"]["l"] == 0 and not s2["p"]["pr"] and s2["r"]["k"] == "agg" and s2["r"].get("variant") == "Err":
+        # (an `Err(..)` built in a helper the loader applies with `?` is the helper's return value first: any local)
+        if s2["k"] == "assign" and not s2["p"]["pr"] and s2["r"]["k"] == "agg" and s2["r"].get("variant") == "Err" and "DatabaseError" in str(s2["r"].get("ops")) + str(b.local_ty(s2["p"]["l"])):
             errs.append(i2)
     ctx.check(len(errs) >= 6, "R4", "error-exits", "%d explicit Err exits (sig without label x5, line outside module)" % len(errs),
               "explicit error exits missing: %d found, 6 expected (text that is not a valid database must be rejected)" % len(errs), ctx.loc(b))
